@@ -634,10 +634,10 @@ def minimize_lbfgsb(
                         jac=grad,
                         nfev=sf.nfev,
                         njev=sf.ngev,
-                        nit=istate.nit,
+                        nit=istate.nit + 1,
                         status=istate.warnflag,
                         message=istate.task_str,
-                        x=x,
+                        x=np.copy(x),
                         success=istate.is_success,
                         hess_inv=LbfgsInvHessProduct(
                             np.atleast_2d(np.diff(np.array(X), axis=0)),
